@@ -431,8 +431,11 @@ def stubs_fixed(tier):
         for script in itertools.product(["ok", "err"], repeat=n):
             for pol in itertools.product([(False, False), (True, False), (False, True), (True, True)], repeat=n - 1):
                 policy = [list(p) for p in pol] + [[False, False]]
-                k += 1
-                out.append(dict(id="enum:retry:%d" % k, cfg={"kind": "retry", "n": 1, "script": list(script), "policy": policy}, steps=[]))
+                # the error an "err" entry stands for: every RpcError variant an inner stub can produce without a transport
+                for ek in (("deadline", "shutdown", "server") if "err" in script else ("deadline",)):
+                    k += 1
+                    out.append(dict(id="enum:retry:%d" % k, cfg={"kind": "retry", "n": 1, "script": list(script), "policy": policy,
+                                                                 "errkind": ek}, steps=[]))
     for n in range(1, 5):
         for calls in (1, n, n + 1, 2 * n + 1):
             out.append(dict(id="enum:rri:%d:%d" % (n, calls), cfg={"kind": "rri", "n": n, "calls": calls}, steps=[]))
@@ -471,6 +474,7 @@ def wire_to_sched(g, consts):
     steps = g["steps"]
     ws = [s["n"] for s in steps if s["a"] == "w"]
     rs = [s["n"] for s in steps if s["a"] == "r"]
+    fs = [s["n"] for s in steps if s["a"] == "f"]
     h = int(hashlib.sha1(repr(steps).encode()).hexdigest(), 16)
     codec = ["json", "bincode"][h % 2]
     d = ["c2s", "s2c"][(h // 2) % 2]
@@ -478,7 +482,10 @@ def wire_to_sched(g, consts):
     table = C2S_BY_LEN if d == "c2s" else S2C_BY_LEN
     cfg = {"kind": "rt", "codec": codec, "dir": d, "msgs": [table[l] for l in lens], "rscript": rs, "wscript": ws,
            "transit": [0, 0, 3][(h // 4) % 3], "close": ["drop", "close"][(h // 12) % 2]}
-    return dict(cfg=cfg, steps=[], tags=(codec, d))
+    if consts.get("IoBuf"):
+        # a buffering byte stream: the flush has to be driven to completion by the writer; "keep" leaves the writer alive
+        cfg.update(iobuf=True, fscript=fs, close=["drop", "close", "keep"][(h // 12) % 3])
+    return dict(cfg=cfg, steps=[], tags=(codec, d, cfg["close"]) if consts.get("IoBuf") else (codec, d))
 
 
 def wire_fixed(kinds):
@@ -526,14 +533,14 @@ def wire_fixed(kinds):
 
 def wire_export(name, lens, **over):
     return dict(module="MC_Wire", name=name,
-                constants=dict(MsgLens="<-" + lens, MaxChunk=3, PendingBudget=2, ExportSched=True, FixF2=True, **over),
+                constants=dict(dict(MsgLens="<-" + lens, MaxChunk=3, PendingBudget=2, ExportSched=True, FixF2=True, IoBuf=False), **over),
                 quick={}, thorough={}, to_sched=wire_to_sched, cap_quick=1500, cap_thorough=20000, timeout=600,
                 simulate_quick=1500, simulate_thorough=20000)
 
 
 def wire_model(name, lens, **over):
-    return dict(module="MC_Wire", name=name, constants=dict(MsgLens="<-" + lens, MaxChunk=3, PendingBudget=2, ExportSched=False, FixF2=True, **over),
-                quick={}, thorough=dict(PendingBudget=3), invariants=["Inv_Prefix", "Inv_Eos", "Inv_NoGarbage", "KindsBincodeOK"], coverage=False)
+    return dict(module="MC_Wire", name=name, constants=dict(dict(MsgLens="<-" + lens, MaxChunk=3, PendingBudget=2, ExportSched=False, FixF2=True, IoBuf=False), **over),
+                quick={}, thorough=dict(PendingBudget=3), invariants=["Inv_Prefix", "Inv_Eos", "Inv_NoGarbage", "Inv_Flushed", "KindsBincodeOK"], coverage=False)
 
 
 def wire_family(kinds_fixed, kinds_random, rq, rt, exports, sub=None):
@@ -555,9 +562,9 @@ PROPS["C15"] = dict(
           "or Pending) and seeded random chunk scripts, over both in-memory channels with drop / close / keep-open endings, the full error-kind table under "
           "both codecs, and hand-built JSON omitting optional fields; non-trivial = at least one message written; distinct by cfg"),
     assumptions=WIRE_ASSUME,
-    models=[wire_model("framing-A", "LensA"), wire_model("framing-C", "LensC")],
+    models=[wire_model("framing-A", "LensA"), wire_model("framing-C", "LensC"), wire_model("framing-iobuf-B", "LensB", IoBuf=True)],
     families=[wire_family({"kinds", "omit", "mem"}, "rt", 1500, 30000,
-                          [wire_export("A", "LensA"), wire_export("B", "LensB"), wire_export("C", "LensC")])],
+                          [wire_export("A", "LensA"), wire_export("B", "LensB"), wire_export("C", "LensC"), wire_export("iobuf-B", "LensB", IoBuf=True)])],
     relevant=lambda e: e.get("cfg", {}).get("kind") in ("kinds", "omit") or len(e.get("cfg", {}).get("msgs", [])) > 0,
 )
 PROPS["C16"] = dict(
@@ -570,7 +577,7 @@ PROPS["C16"] = dict(
     assumptions=WIRE_ASSUME + ["TLA+ contributes the message classes and their sequencing with valid traffic; the decoder's behaviour on specific byte strings is seeded sampling",
                                "one harness process per subscriber configuration (a global subscriber can be installed once)"],
     models=[wire_model("framing-A", "LensA")],
-    families=[wire_family({"live"}, "garbage,live,clientdl", 1200, 20000, [], sub=None),
+    families=[wire_family({"live", "kinds"}, "garbage,live,clientdl", 1200, 20000, [], sub=None),
               wire_family({"live"}, "live,clientdl", 600, 8000, [], sub="fmt"),
               wire_family({"live"}, "live,clientdl", 600, 8000, [], sub="otel")],
     relevant=lambda e: True,
@@ -645,6 +652,15 @@ def chain_fixed(tier):
                         steps.append({"a": "Tick", "d": 5} if a == "Tick5" else {"a": a})
                     k += 1
                     out.append(dict(id="fixed:chain:%d" % k, cfg={"depth": depth, "delays": delays[:depth]}, steps=steps))
+            # deadlines years away (beyond the one-year cap of the deadline timers); the script ends the chain itself
+            for dl in (94608000000, 946080000000):
+                for script in (["Settle", "CompleteLeaf"], ["Settle", "Abandon"], ["Settle", "CompleteLeaf", "Abandon"], ["Abandon"],
+                               ["Settle", "Tick5", "CompleteLeaf"]):
+                    steps = [{"a": "Start", "dl": dl, "tr": 6242 + k, "sampled": k % 2 == 0}]
+                    for a in script:
+                        steps.append({"a": "Tick", "d": 5} if a == "Tick5" else {"a": a})
+                    k += 1
+                    out.append(dict(id="fixed:chain:%d" % k, cfg={"depth": depth, "delays": delays[:depth]}, steps=steps))
     # back-pressure on one hop's client transport while the head is abandoned / the deadline passes
     for depth in (1, 2, 3):
         for g in range(1, depth + 1):
@@ -686,6 +702,22 @@ PROPS["C07"]["relevant"] = lambda e: has(e, "Start") or _r07(e)
 _r18 = PROPS["C18"]["relevant"]
 PROPS["C18"]["relevant"] = lambda e: has(e, "Start") or _r18(e)
 
+
+
+for _p in ("C06", "C10"):
+    PROPS[_p]["models"].append(dict(
+        module="MC_Server", name="server-liveness", spec="FairSpec", tiers=("thorough",),
+        constants=dict(SERVER_BASE, Limit=1, Deadlines="{1, 2}", MaxTime=3, SinkMode='"coupled"', CancelBudget=1),
+        quick={}, thorough={}, invariants=["TypeOK"], properties=["Live_Handlers", "Live_Eof"], coverage=False,
+        workers=8, timeout_thorough=2400))
+# Apalache: the balance law of the round-robin cursor as an inductive invariant, for any number of picks and pickers
+PROPS["C20"]["apalache"] = [
+    dict(what="base case", spec="spec/apa/RoundRobinInd.tla", cinit="ConstInit", init="Init", inv="IndInv", length=0, expect="NoError"),
+    dict(what="inductive step", spec="spec/apa/RoundRobinInd.tla", cinit="ConstInit", init="IndInit", inv="IndInv", length=1, expect="NoError"),
+    dict(what="invariant implies balance", spec="spec/apa/RoundRobinInd.tla", cinit="ConstInit", init="IndInit", inv="Balance", length=0, expect="NoError"),
+    dict(what="non-vacuity probe", spec="spec/apa/RoundRobinInd.tla", cinit="ConstInit", init="IndInit", inv="Probe", length=0, expect="Error"),
+    dict(what="load-then-store cursor is not inductive", spec="spec/apa/RoundRobinInd.tla", cinit="ConstInitSplit", init="IndInit", inv="IndInv", length=2, expect="Error"),
+]
 
 # ------------------------------------------------------------------ thorough-only models: interleaved polls and liveness
 PROPS["C02"]["models"].append(dict(
